@@ -15,7 +15,7 @@ CONSTANT Family            \* which universe to enumerate (see Universe below)
 \* 10: 2012-01-01 01Z  11: 2012-01-01 02Z (runs one hour apart: relatively close as unix times, family C02Close)
 TimePool == <<1325376000, 1325397600, 1325462400, 1328054400, 1325354400, 1330516800, 1330560000, 1298937600, 1356994800,
               1325379600, 1325383200>>
-LeadPool == <<0, 12, 24, 36, 47, 48>>
+LeadPool == <<0, 12, 24, 36, 47, 48, -6, -30>>        \* the last two: steps before the initialisation time
 LocPool  == <<1, 2, 3, 4, 1000001, 1000005>>       \* two seven-digit station ids a few units apart (family C02Close)
 LatOf(s)  == IF s > 100 THEN 41 + (s % 10) ELSE 40 + 10 * s          \* 50, 60, 70, 80
 LonOf(s)  == IF s > 100 THEN 5 + (s % 10) ELSE IF s = 3 THEN 200 ELSE 10 * s     \* one station in the 0..360 convention
@@ -208,7 +208,8 @@ UC11Sel(u) == {[inp |-> <<[ts |-> SubSeq(TimePool, 1, 9), ls |-> L6, ss |-> Sa, 
              clim |-> NoClimGen, opt |-> o] : o \in {WithOpt(NoOptions, "d", {20120101, 20120201, 20120229, 20120301}), WithOpt(NoOptions, "tod", {0}),
                                                       WithOpt(NoOptions, "tod", {6, 18, 23}), WithOpt(NoOptions, "d", {20111231, 20121231, 20110301}),
                                                       WithOpt(WithOpt(NoOptions, "d", {20120101, 20120102, 20120201}), "tod", {0})}}
-UC11All(u) == {[inp |-> <<[ts |-> SubSeq(TimePool, 1, 9), ls |-> L6, ss |-> Sa, hasObs |-> TRUE, mo |-> {<<1, 2, 1>>}, mf |-> {<<2, 3, 2>>}, bump |-> 0]>>,
+L8 == L6 \o <<LeadPool[7], LeadPool[8]>>
+UC11All(u) == {[inp |-> <<[ts |-> SubSeq(TimePool, 1, 9), ls |-> L8, ss |-> Sa, hasObs |-> TRUE, mo |-> {<<1, 2, 1>>}, mf |-> {<<2, 3, 2>>}, bump |-> 0]>>,
              clim |-> NoClimGen, opt |-> NoOptions]}
 
 ---------------------------------------------------------------------------
@@ -269,6 +270,8 @@ In12(mo, mf) == [ts |-> C12Times, ls |-> C12Leads, ss |-> <<LocPool[2], LocPool[
 UC12(u) == {[inp |-> <<In222(a, {}), In222({}, d)>>, clim |-> NoClimGen, opt |-> NoOptions] : a \in {{}, {p \in P222 : p[1] = 1}}, d \in {{}, {<<1, 2, 1>>}}}
       \cup {[inp |-> <<In12(a, {}), In12({}, d)>>, clim |-> NoClimGen, opt |-> NoOptions] : a \in {{}, {<<2, 1, 1>>, <<2, 2, 1>>, <<2, 3, 1>>}}, d \in {{<<5, 1, 2>>}}}
 \* the same tables with a climatology (-c): the legend and the columns are those of the scored inputs
+\* slices that hold exactly ONE valid pair (a 2x2 table with total 1 is a table) and slices that hold none
+UC12One(u) == {[inp |-> <<In222({<<1, 1, 1>>, <<1, 1, 2>>, <<2, 1, 1>>}, {}), In222({}, {<<1, 2, 2>>})>>, clim |-> NoClimGen, opt |-> NoOptions]}
 UC12Clim(u) == {[inp |-> <<In222({}, {}), In222({}, {<<1, 2, 1>>})>>,
                  clim |-> [on |-> TRUE, ts |-> Tb, ls |-> La, ss |-> Sa, hasObs |-> FALSE, mo |-> {}, mf |-> {<<2, 2, 2>>}, mode |-> "small", type |-> "subtract"],
                  opt |-> NoOptions]}
@@ -316,7 +319,7 @@ Universe(u) ==
     [] Family = "C04Quick"  -> UC04Quick(0)
     [] Family = "C04Clim"   -> UC04Clim(0)
     [] Family = "C12"       -> UC12(0)
-    [] Family = "C12Report" -> UC12(0) \cup UC12Clim(0)
+    [] Family = "C12Report" -> UC12(0) \cup UC12Clim(0) \cup UC12One(0)
     [] Family = "C02Order"  -> UC02Order(0)
     [] Family = "C02Sel"    -> UC02Sel(0)
     [] Family = "C02Repeat" -> UC02Repeat(0)
